@@ -940,6 +940,10 @@ def run(ctx_):
     c02.optional_rule(F, res)
     res.rule("KIND", "number and asset arithmetic keep their kind (never yield the absent operand None)")
     arith_kind(F, res)
+    # an asset keeps the class the template wrote (policy + name, name only, lovelace): shared with C15 / C02
+    from . import c15
+    res.rule("I-CLASS", "from_asset sends each presence combination of (policy, name) to its own asset class: a policy-only token does not turn into lovelace when it takes part in arithmetic")
+    c15.i_class(F, res)
     res.rule("G-SKIP", "the grammar's implicit whitespace / comment skipping never runs in front of something that can itself begin with a blank: what a literal contains is what the template author wrote")
     g_skip(F, res)
     return res
